@@ -28,10 +28,12 @@ VARIABLES
   rounds, panicSeen, bad,
   lastSize,  \* sample size of the last executed round
   curCnt,    \* <<tid, kind>> -> sum of the per-input counter values of this round
-  expCnt     \* kind -> per-iteration counter values the stored samples must carry
+  expCnt,    \* kind -> per-iteration counter values the stored samples must carry
+  snap,      \* tid -> allocation tally read at the end of this round's timed section
+  expAl      \* allocation tallies the stored samples must carry, in stored order
 
 vars == <<l, sc, phase, p, st, initStart, tsStart, tsEnd, cnt, calls, rounds,
-          panicSeen, bad, lastSize, curCnt, expCnt>>
+          panicSeen, bad, lastSize, curCnt, expCnt, snap, expAl>>
 
 Is(e) == l <= Len(Rec) /\ Rec[l].ev = e /\ l' = l + 1
 R == Rec[l]
@@ -59,35 +61,35 @@ IsTest(s) == s.action = "test"
 Init ==
   /\ l = 1 /\ sc = [entry |-> "none"] /\ phase = "none" /\ p = P0 /\ st = S0
   /\ initStart = -1 /\ tsStart = <<>> /\ tsEnd = <<>> /\ cnt = <<>>
-  /\ calls = <<>> /\ rounds = 0 /\ panicSeen = FALSE /\ bad = {} /\ lastSize = 0 /\ curCnt = <<>> /\ expCnt = [k \in 0..3 |-> <<>>]
+  /\ calls = <<>> /\ rounds = 0 /\ panicSeen = FALSE /\ bad = {} /\ lastSize = 0 /\ curCnt = <<>> /\ expCnt = [k \in 0..3 |-> <<>>] /\ snap = <<>> /\ expAl = <<>>
 
 TrReset ==
   /\ Is("reset") /\ sc' = R.scenario /\ phase' = "none" /\ p' = P0 /\ st' = S0
-  /\ initStart' = -1 /\ tsStart' = <<>> /\ tsEnd' = <<>> /\ cnt' = <<>>
-  /\ calls' = <<>> /\ rounds' = 0 /\ panicSeen' = FALSE /\ bad' = {} /\ lastSize' = 0 /\ curCnt' = <<>> /\ expCnt' = [k \in 0..3 |-> <<>>]
+  /\ initStart' = -1 /\ tsStart' = <<>> /\ tsEnd' = <<>> /\ cnt' = <<>> /\ snap' = <<>>
+  /\ calls' = <<>> /\ rounds' = 0 /\ panicSeen' = FALSE /\ bad' = {} /\ lastSize' = 0 /\ curCnt' = <<>> /\ expCnt' = [k \in 0..3 |-> <<>>] /\ expAl' = <<>>
 
 TrBenchCall ==
   /\ Is("bench_call") /\ phase' = "called"
-  /\ UNCHANGED <<sc, p, st, initStart, tsStart, tsEnd, cnt, calls, rounds, panicSeen, bad, lastSize, curCnt, expCnt>>
+  /\ UNCHANGED <<sc, p, st, initStart, tsStart, tsEnd, cnt, snap, calls, rounds, panicSeen, bad, lastSize, curCnt, expCnt, expAl>>
 
 TrPrecBegin ==
   /\ Is("precision_begin") /\ phase' = "prec"
-  /\ UNCHANGED <<sc, p, st, initStart, tsStart, tsEnd, cnt, calls, rounds, panicSeen, bad, lastSize, curCnt, expCnt>>
+  /\ UNCHANGED <<sc, p, st, initStart, tsStart, tsEnd, cnt, snap, calls, rounds, panicSeen, bad, lastSize, curCnt, expCnt, expAl>>
 TrPrecEnd ==
   /\ Is("precision_end") /\ phase' = "called"
-  /\ UNCHANGED <<sc, p, st, initStart, tsStart, tsEnd, cnt, calls, rounds, panicSeen, bad, lastSize, curCnt, expCnt>>
+  /\ UNCHANGED <<sc, p, st, initStart, tsStart, tsEnd, cnt, snap, calls, rounds, panicSeen, bad, lastSize, curCnt, expCnt, expAl>>
 
 \* Timestamps of the precision measurement are not part of the loop.
 TrTsPrec ==
   /\ Is("ts") /\ phase = "prec"
-  /\ UNCHANGED <<sc, phase, p, st, initStart, tsStart, tsEnd, cnt, calls, rounds, panicSeen, bad, lastSize, curCnt, expCnt>>
+  /\ UNCHANGED <<sc, phase, p, st, initStart, tsStart, tsEnd, cnt, snap, calls, rounds, panicSeen, bad, lastSize, curCnt, expCnt, expAl>>
 
 \* The timestamp read before the loop starts is the initial start.
 TrTsInitial ==
   /\ Is("ts") /\ phase = "called"
   /\ initStart' = R.value
   /\ bad' = bad \cup Flag(R.kind # "start" \/ R.tid # 0, "C04:initial_timestamp_kind")
-  /\ UNCHANGED <<sc, phase, p, st, tsStart, tsEnd, cnt, calls, rounds, panicSeen, lastSize, curCnt, expCnt>>
+  /\ UNCHANGED <<sc, phase, p, st, tsStart, tsEnd, cnt, snap, calls, rounds, panicSeen, lastSize, curCnt, expCnt, expAl>>
 
 TrInitialStart ==
   /\ Is("initial_start")
@@ -95,7 +97,7 @@ TrInitialStart ==
        \cup Flag(R.taken # (initStart # -1), "C04:initial_start_event_mismatch")
        \* elapsed time includes external time unless skip_ext_time is set
        \cup Flag(R.taken = OptSkip(sc), "C04:initial_start_vs_skip_ext_time")
-  /\ UNCHANGED <<sc, phase, p, st, initStart, tsStart, tsEnd, cnt, calls, rounds, panicSeen, lastSize, curCnt, expCnt>>
+  /\ UNCHANGED <<sc, phase, p, st, initStart, tsStart, tsEnd, cnt, snap, calls, rounds, panicSeen, lastSize, curCnt, expCnt, expAl>>
 
 TrLoopBegin ==
   /\ Is("loop_begin")
@@ -116,31 +118,46 @@ TrLoopBegin ==
           \cup Flag(R.rem # s0.rem, "C03:initial_remaining_samples")
           \cup Flag(R.min # OptMin(sc) \/ R.max # OptMax(sc) \/ R.skip # OptSkip(sc),
                     "C04:time_options_not_as_configured")
-  /\ phase' = "running" /\ tsStart' = <<>> /\ tsEnd' = <<>> /\ cnt' = <<>>
-  /\ UNCHANGED <<sc, initStart, calls, rounds, panicSeen, lastSize, curCnt, expCnt>>
+  /\ phase' = "running" /\ tsStart' = <<>> /\ tsEnd' = <<>> /\ cnt' = <<>> /\ snap' = <<>>
+  /\ UNCHANGED <<sc, initStart, calls, rounds, panicSeen, lastSize, curCnt, expCnt, expAl>>
 
 TrTsRound ==
   /\ Is("ts") /\ phase = "running"
   /\ IF R.kind = "start"
        THEN tsStart' = Put(tsStart, R.tid, R.value) /\ UNCHANGED tsEnd
        ELSE tsEnd' = Put(tsEnd, R.tid, R.value) /\ UNCHANGED tsStart
-  /\ UNCHANGED <<sc, phase, p, st, initStart, cnt, calls, rounds, panicSeen, bad, lastSize, curCnt, expCnt>>
+  /\ UNCHANGED <<sc, phase, p, st, initStart, cnt, snap, calls, rounds, panicSeen, bad, lastSize, curCnt, expCnt, expAl>>
 
 TrSnapshot ==
   /\ Is("tally_snapshot")
   /\ cnt' = Put(cnt, R.tid, <<R.info.alloc[1], R.info.dealloc[1],
                               R.info.grow[1] + R.info.shrink[1]>>)
-  /\ UNCHANGED <<sc, phase, p, st, initStart, tsStart, tsEnd, calls, rounds, panicSeen, bad, lastSize, curCnt, expCnt>>
+  /\ snap' = Put(snap, R.tid, R.info)
+  /\ UNCHANGED <<sc, phase, p, st, initStart, tsStart, tsEnd, calls, rounds, panicSeen, bad, lastSize, curCnt, expCnt, expAl>>
 
 TrCall ==
   /\ Is("call")
   /\ calls' = Put(calls, R.tid, Get(calls, R.tid, 0) + 1)
-  /\ UNCHANGED <<sc, phase, p, st, initStart, tsStart, tsEnd, cnt, rounds, panicSeen, bad, lastSize, curCnt, expCnt>>
+  /\ UNCHANGED <<sc, phase, p, st, initStart, tsStart, tsEnd, cnt, snap, rounds, panicSeen, bad, lastSize, curCnt, expCnt, expAl>>
 
 TrCount ==
   /\ Is("count")
   /\ curCnt' = Put(curCnt, <<R.tid, R.kind>>, Get(curCnt, <<R.tid, R.kind>>, 0) + R.value)
-  /\ UNCHANGED <<sc, phase, p, st, initStart, tsStart, tsEnd, cnt, calls, rounds, panicSeen, bad, lastSize, expCnt>>
+  /\ UNCHANGED <<sc, phase, p, st, initStart, tsStart, tsEnd, cnt, snap, calls, rounds, panicSeen, bad, lastSize, expCnt, expAl>>
+
+NoInfo == [alloc |-> <<0, 0>>, dealloc |-> <<0, 0>>, grow |-> <<0, 0>>, shrink |-> <<0, 0>>,
+           max_count |-> 0, max_size |-> 0, cur_count |-> 0, cur_size |-> 0]
+EmptyInfo(i) == i.alloc = <<0, 0>> /\ i.dealloc = <<0, 0>> /\ i.grow = <<0, 0>> /\ i.shrink = <<0, 0>>
+SameInfo(a, b) == /\ a.alloc = b.alloc /\ a.dealloc = b.dealloc /\ a.grow = b.grow /\ a.shrink = b.shrink
+                  /\ a.max_count = b.max_count /\ a.max_size = b.max_size
+(* The allocation data kept for the stored samples (index -> tally, only    *)
+(* non-empty tallies need an entry) is that of the samples' own sections.   *)
+AllocDataExact(allocs, exp) ==
+  /\ \A j \in 1..Len(allocs) :
+        \/ allocs[j].index + 1 \in 1..Len(exp) /\ SameInfo(allocs[j].info, exp[allocs[j].index + 1])
+        \/ EmptyInfo(allocs[j].info)
+  /\ \A i \in 1..Len(exp) :
+        EmptyInfo(exp[i]) \/ \E j \in 1..Len(allocs) : allocs[j].index + 1 = i
 
 Threads == 0..(p.T - 1)
 HaveReadings == \A t \in Threads : t \in DOMAIN tsStart /\ t \in DOMAIN tsEnd
@@ -176,7 +193,7 @@ TrRoundEnd ==
             \cup Flag(tuning /\ R.nalloc > p.T, "C19:earlier_allocation_data_not_discarded"))
   /\ st' = [mode |-> R.mode, size |-> R.size, rem |-> R.rem, elapsed |-> R.elapsed,
             nsamples |-> R.nsamples]
-  /\ rounds' = rounds + 1 /\ tsStart' = <<>> /\ tsEnd' = <<>> /\ cnt' = <<>>
+  /\ rounds' = rounds + 1 /\ tsStart' = <<>> /\ tsEnd' = <<>> /\ cnt' = <<>> /\ snap' = <<>>
   /\ lastSize' = st.size
   \* per-input counters (C05): per-iteration value = sum over the sample's
   \* inputs divided by the sample size; tuning rounds discard earlier data (C19)
@@ -184,18 +201,22 @@ TrRoundEnd ==
         (IF st.mode = "tune" THEN <<>> ELSE expCnt[k])
         \o [i \in 1..p.T |-> Get(curCnt, <<i - 1, k>>, 0) \div (IF st.size = 0 THEN 1 ELSE st.size)]]
   /\ curCnt' = <<>>
+  \* allocation data (C05): each stored sample carries the tally of its own
+  \* timed section; tuning rounds discard earlier data (C19)
+  /\ expAl' = (IF st.mode = "tune" THEN <<>> ELSE expAl)
+               \o [i \in 1..p.T |-> Get(snap, i - 1, NoInfo)]
   /\ UNCHANGED <<sc, phase, p, initStart, calls, panicSeen>>
 
 TrTestBreak ==
   /\ Is("test_break")
   /\ bad' = bad \cup Flag(~p.test, "C03:test_break_in_bench_mode")
                 \cup Flag(rounds # 0, "C03:test_mode_more_than_one_round")
-  /\ rounds' = rounds + 1 /\ tsStart' = <<>> /\ tsEnd' = <<>> /\ cnt' = <<>>
-  /\ UNCHANGED <<sc, phase, p, st, initStart, calls, panicSeen, lastSize, curCnt, expCnt>>
+  /\ rounds' = rounds + 1 /\ tsStart' = <<>> /\ tsEnd' = <<>> /\ cnt' = <<>> /\ snap' = <<>>
+  /\ UNCHANGED <<sc, phase, p, st, initStart, calls, panicSeen, lastSize, curCnt, expCnt, expAl>>
 
 TrUserPanic ==
   /\ Is("user_panic") /\ panicSeen' = TRUE
-  /\ UNCHANGED <<sc, phase, p, st, initStart, tsStart, tsEnd, cnt, calls, rounds, bad, lastSize, curCnt, expCnt>>
+  /\ UNCHANGED <<sc, phase, p, st, initStart, tsStart, tsEnd, cnt, snap, calls, rounds, bad, lastSize, curCnt, expCnt, expAl>>
 
 AllCalls(k) == \A t \in Threads : Get(calls, t, 0) = k
 NoForeignCalls == \A t \in DOMAIN calls : t \in Threads \/ calls[t] = 0
@@ -218,7 +239,7 @@ TrBenchReturn ==
          \cup Flag(PlainCounted /\ st.nsamples # p.T * CeilDiv(p.n, p.T), "C03:recorded_samples_total")
          \cup Flag(~NoForeignCalls, "C03:call_on_foreign_thread"))
   /\ phase' = "returned"
-  /\ UNCHANGED <<sc, p, st, initStart, tsStart, tsEnd, cnt, calls, rounds, panicSeen, lastSize, curCnt, expCnt>>
+  /\ UNCHANGED <<sc, p, st, initStart, tsStart, tsEnd, cnt, snap, calls, rounds, panicSeen, lastSize, curCnt, expCnt, expAl>>
 
 TrReport ==
   /\ Is("report")
@@ -235,13 +256,17 @@ TrReport ==
              THEN {"C05:per_input_counter_values_differ_from_the_samples_inputs"}
                   \cup Flag(p.sOpt = -1, "C19:counter_data_of_earlier_rounds_not_discarded")
              ELSE {})
+       \cup (IF phase = "returned" /\ st.mode # "none" /\ ~p.test /\ ~AllocDataExact(R.allocs, expAl)
+             THEN {"C05:allocation_figures_of_a_sample_are_not_those_of_its_timed_section"}
+                  \cup Flag(p.sOpt = -1, "C19:earlier_allocation_data_not_discarded")
+             ELSE {})
        \cup Flag(R.stats_status = "ok" /\ st.mode # "none" /\ Len(R.durations) > 0 /\ R.sample_size # lastSize,
                  "C19:reported_sample_size_is_not_the_final_size"))
-  /\ UNCHANGED <<sc, phase, p, st, initStart, tsStart, tsEnd, cnt, calls, rounds, panicSeen, lastSize, curCnt, expCnt>>
+  /\ UNCHANGED <<sc, phase, p, st, initStart, tsStart, tsEnd, cnt, snap, calls, rounds, panicSeen, lastSize, curCnt, expCnt, expAl>>
 
 TrOther ==
   /\ l <= Len(Rec) /\ Rec[l].ev \in {"report_failed", "sched_end"} /\ l' = l + 1
-  /\ UNCHANGED <<sc, phase, p, st, initStart, tsStart, tsEnd, cnt, calls, rounds, panicSeen, bad, lastSize, curCnt, expCnt>>
+  /\ UNCHANGED <<sc, phase, p, st, initStart, tsStart, tsEnd, cnt, snap, calls, rounds, panicSeen, bad, lastSize, curCnt, expCnt, expAl>>
 
 TrNext ==
   \/ TrReset \/ TrBenchCall \/ TrPrecBegin \/ TrPrecEnd \/ TrTsPrec \/ TrTsInitial
